@@ -12,7 +12,7 @@ DEFAULT_PROFILE = {
     "p_cli_select": 0.3, "p_cli_disable": 0.25, "p_cli_define": 0.3, "p_cli_builders": 0.3, "p_cli_apps": 0.3,
     "p_partition": 0.0, "p_local": 0.0, "p_escape": 0.08, "p_expr": 0.1, "p_postlink": 0.15, "p_srcdir": 0.1,
     "p_removes": 0.1, "p_notify_all": 0.05, "p_nobindir": 0.0, "p_include": 0.1, "p_bad": 0.0,
-    "p_cycle": 0.02, "p_same_override": 0.15, "p_hard_missing": 0.03, "p_app_elsewhere": 0.25,
+    "p_cycle": 0.02, "p_task_fail": 0.0, "p_same_override": 0.15, "p_hard_missing": 0.03, "p_app_elsewhere": 0.25,
 }
 
 VARS = ["CFLAGS", "DEFS", "OPT", "X", "LIBS"]
@@ -83,8 +83,10 @@ class Gen:
     def task(self, names):
         rng = self.rng
         t = {"cmd": [rng.choice(["echo ${app} ${builder}", "run ${out}", "flash ${X} $(1+1)", "t $$HOME ${CFLAGS}"])]}
+        if self.chance("p_task_fail"):
+            t["cmd"][0] += " FAILME"
         if rng.random() < 0.3:
-            t["cmd"].append("second ${relpath}")
+            t["cmd"].append("second ${relpath}" + (" FAILME" if self.chance("p_task_fail") else ""))
         if rng.random() < 0.35:
             t["required_vars"] = [rng.choice(VARS + ["NOPE"])]
         if rng.random() < 0.3:
